@@ -276,15 +276,23 @@ func c11Wait(fs *FSResults, graph, id string) bool {
 // VerifH_C11_restart: completed jobs remain listed, readable and findable after a
 // restart, under whatever graph name they were submitted; a deleted job is gone
 // and stays gone.
+// c11Base: the spool directory: a fixed name in the in-memory file system, a fresh
+// temporary directory natively (left to the operating system's temp cleaning).
+func c11Base() string {
+	if vSymbolic() {
+		return "/base"
+	}
+	d, err := os.MkdirTemp("", "verif-c11-")
+	if err != nil {
+		panic(err)
+	}
+	return d
+}
+
 func VerifH_C11_restart() {
-	base := "/base"
+	base := c11Base()
 	if !vSymbolic() {
-		d, err := os.MkdirTemp("", "verif-c11-")
-		if err != nil {
-			panic(err)
-		}
-		defer os.RemoveAll(d)
-		base = d
+		defer os.RemoveAll(base)
 	}
 	// valid graph names (gripql.ValidateGraphName); some differ only in what sanitize.Name erases
 	names := []string{"g", "Test_Graph", "G1", "g1", "g_1", "g-1"}[:vParam("NAMES", 4)]
